@@ -559,6 +559,8 @@ func init() {
 			"glyph coordinates of generated CFF fonts are 16.16-representable",
 		}
 		c01Sizes(r)
+		// the GSUB/GPOS table of a font: lookup lists at the points where extension records set in (shared with C08)
+		c08ExtensionWindowPart(r, "C01.lookup-list-extension", 2)
 		c01Generated(r)
 		c01Accepted(r)
 		c01MapOrder(r)
